@@ -29,9 +29,9 @@ KNOWN_VERBS = ["GET", "HEAD", "PUT", "DELETE", "OPTIONS", "TRACE", "CONNECT",
                "PATCH", "M_POST"]
 UNKNOWN_VERBS = ["FOO", "M-POST", "post", "PROPFIND", "Post", "REPORT"]
 
-T_HANG = 6.0        # watchdog: no byte and the handler is not reading
-T_DRAIN = 4.0       # after the first byte: time to reach EOF
-T_DELIVER = 4.0     # callback thread catches up
+T_HANG = 8.0        # watchdog: no byte and the handler is not reading
+T_DRAIN = 10.0      # after the first byte: time to reach EOF
+T_DELIVER = 8.0     # callback thread catches up
 
 
 def cls_of(t):
@@ -82,7 +82,7 @@ def random_instance(rng, marker):
         lambda: pywbem.CIMProperty("Emb", pywbem.CIMInstance(
             "VTest_Inner", properties={"K": "v<&"}), embedded_object="instance"),
         lambda: pywbem.CIMProperty("Big", pywbem.Uint64(2**64 - 1)),
-        lambda: pywbem.CIMProperty("Long", "y" * rng.choice([100, 5000, 70000]),
+        lambda: pywbem.CIMProperty("Long", "y" * rng.choice([100, 5000, 60000]),
                                    type="string"),
     ]
     for mk in rng.sample(pool, rng.randint(0, 4)):
@@ -105,9 +105,9 @@ def export_body(rng, marker, msgid, method="ExportIndication", params=None,
         pv = []
     msg = X.CIM(X.MESSAGE(X.SIMPLEEXPREQ(X.EXPMETHODCALL(method, pv)),
                           msgid,
-                          proto or rng.choice(["1.0", "1.2", "1.4"])),
-                cim or rng.choice(["2.0", "2.3"]),
-                dtd or rng.choice(["2.0", "2.4", "2.3.1"]))
+                          proto if proto is not None else rng.choice(["1.0", "1.2", "1.4"])),
+                cim if cim is not None else rng.choice(["2.0", "2.3"]),
+                dtd if dtd is not None else rng.choice(["2.0", "2.4", "2.3.1"]))
     s = msg.toxml()
     if raw_params is not None:
         # splice literal parameter XML into the (empty) EXPMETHODCALL
@@ -490,7 +490,12 @@ class Conn:
         self.buf = b""
         self.eof = False
         self.reset = False
-        self.sock.sendall(raw)
+        self.send_error = False
+        try:
+            self.sock.sendall(raw)
+        except (BrokenPipeError, ConnectionResetError):
+            # the server answered and closed before it had read everything
+            self.send_error = True
 
     def _recv(self, timeout):
         self.sock.settimeout(timeout)
@@ -679,6 +684,10 @@ def project(buf, eof, req):
                     o["nresp"] = 2
                 else:
                     framing = False
+    elif re.match(rb"^HTTP/\d\.\d \d{3} ", rest):
+        # no Content-Length: the body runs until the close - but a "body"
+        # that starts with a status line is a second response
+        o["nresp"] = 2
     o["framing"] = framing
     if body:
         project_body(body, o)
@@ -722,10 +731,18 @@ def run_history(box, rng, classes, reqs=None):
             info = {"connect_error": repr(exc)}
             done.append((req, o, info))
             continue
-        try:
+        out = c.first()
+        for _ in range(3):
+            if not (c.send_error and out != "response"):
+                break
+            # our own send failed half way and nothing could be read: the
+            # observation says nothing about the listener; try again
+            c.close()
+            c = Conn(box.port, req.raw)
             out = c.first()
-        except OSError as exc:
-            out = "closed"
+        if c.send_error and out != "response":
+            raise RuntimeError("cannot deliver a request of %d bytes" %
+                               len(req.raw))
         info = {}
         if out == "response":
             eof = c.drain()
